@@ -17,12 +17,29 @@ use vcore::case::{gen_case, GenLimits};
 use vcore::rng::{mix, Rng};
 use vcore::surface::OpKind;
 
+static EXACT_CALLS: std::sync::atomic::AtomicU64 = std::sync::atomic::AtomicU64::new(0);
+
+/// Probe at the library's hook sites (real-rayon copy only): how often did the exact predicate decide?
+fn probe(site: u32) {
+    if site == 10 {
+        EXACT_CALLS.fetch_add(1, std::sync::atomic::Ordering::Relaxed);
+    }
+}
+
 fn main() {
+    mv_real::verif::set_sched_point(Some(probe));
     let a: Vec<String> = std::env::args().collect();
     let mode = a.get(1).map(|s| s.as_str()).unwrap_or("");
     let num = |i: usize, d: u64| -> u64 { a.get(i).and_then(|s| s.parse().ok()).unwrap_or(d) };
     let code = match mode {
-        "c09" => c09(num(2, 1), num(3, 0), num(4, 3) as usize, num(5, 8) as usize, a.get(6).map(|s| s.as_str()).unwrap_or("build")),
+        "c09" => c09(
+            num(2, 1),
+            num(3, 0),
+            num(4, 3) as usize,
+            num(5, 8) as usize,
+            a.get(6).map(|s| s.as_str()).unwrap_or("build"),
+            a.get(7).map(|s| s.as_str()).unwrap_or(""),
+        ),
         "c20" => c20(num(2, 1), num(3, 0), num(4, 4), num(5, 24) as usize),
         _ => {
             eprintln!("usage: miri_drv c09|c20 ...");
@@ -32,7 +49,9 @@ fn main() {
     std::process::exit(code);
 }
 
-fn c09(seed: u64, case_index: u64, threads: usize, max_n: usize, ops: &str) -> i32 {
+/// `want`: "" or a prefix of the case's `family/mask` name the drawn input has to have (e.g.
+/// `centered_lattice/none`: an input on which the exact predicate decides, every cell active).
+fn c09(seed: u64, case_index: u64, threads: usize, max_n: usize, ops: &str, want: &str) -> i32 {
     // a case with too few generators has nothing to schedule: draw again
     let mut attempt = 0u64;
     let case = loop {
@@ -46,7 +65,18 @@ fn c09(seed: u64, case_index: u64, threads: usize, max_n: usize, ops: &str) -> i
                 dim_weights: [1, 2, 6],
             },
         );
-        if c.n() >= max_n.min(4) || attempt >= 64 {
+        // `want` = [<dim>[p|n]:]<family prefix>, e.g. "2p:lattice/none": 2D, periodic, family lattice, no mask
+        let (shape, fam) = match want.split_once(':') {
+            Some((a, b)) => (a, b),
+            None => ("", want),
+        };
+        let shape_ok = shape.chars().all(|ch| match ch {
+            '1' | '2' | '3' => c.dim == ch.to_digit(10).unwrap() as usize,
+            'p' => c.periodic,
+            'n' => !c.periodic,
+            _ => true,
+        });
+        if (c.n() >= max_n.min(4) && c.family.starts_with(fam) && shape_ok) || attempt >= 4096 {
             break c;
         }
         attempt += 1;
@@ -67,7 +97,7 @@ fn c09(seed: u64, case_index: u64, threads: usize, max_n: usize, ops: &str) -> i
             let o = s_real::run_op(&case, op);
             match o.first_diff(&r) {
                 None => println!(
-                    "E2-OK case={} n={} dim={} periodic={} family={} threads={} op={} rep={} digest={}",
+                    "E2-OK case={} n={} dim={} periodic={} family={} threads={} op={} rep={} exact_predicate_calls={} digest={}",
                     case_index,
                     case.n(),
                     case.dim,
@@ -76,6 +106,7 @@ fn c09(seed: u64, case_index: u64, threads: usize, max_n: usize, ops: &str) -> i
                     threads,
                     name,
                     rep,
+                    EXACT_CALLS.load(std::sync::atomic::Ordering::Relaxed),
                     o.short()
                 ),
                 Some((comp, x, y)) => {
